@@ -10,8 +10,8 @@ D# = -7
 L& = 2147483647
 I% = -32768
 Q! = 2.5
-PRINT CR$
-PRINT
+PRINT #1, "ab"
+LPRINT
 PRINT , "|"
 LPRINT , "|"
 PRINT #1, , "|"
